@@ -60,11 +60,21 @@ impl<I: Interner> SpecializationPriorities<I> {
         self.map[&impl_id]
     }
 
-    /// Store the priority of an impl (used during construction).
-    /// Panics if we have already stored the priority for this impl.
-    fn insert(&mut self, impl_id: ImplId<I>, p: SpecializationPriority) {
-        let old_value = self.map.insert(impl_id, p);
-        assert!(old_value.is_none());
+    /// Store the priority of an impl (used during construction), keeping the
+    /// highest priority stored for this impl so far. Returns `true` if the
+    /// stored priority changed.
+    fn insert(&mut self, impl_id: ImplId<I>, p: SpecializationPriority) -> bool {
+        match self.map.get_mut(&impl_id) {
+            Some(old_value) if *old_value >= p => false,
+            Some(old_value) => {
+                *old_value = p;
+                true
+            }
+            None => {
+                self.map.insert(impl_id, p);
+                true
+            }
+        }
     }
 }
 
@@ -101,7 +111,7 @@ where
         // TypeVisitable every root in the forest & set specialization
         // priority for the tree that is the root of.
         for root_idx in forest.externals(Direction::Incoming) {
-            self.set_priorities(root_idx, &forest, 0, &mut result);
+            self.set_priorities(root_idx, &forest, 0, &mut result)?;
         }
 
         Ok(Arc::new(result))
@@ -128,24 +138,43 @@ where
     }
 
     // Recursively set priorities for those node and all of its children.
+    //
+    // The "forest" is in general a DAG: given `impl<T> Foo for T`,
+    // `impl<T> Foo for Vec<T>` and `impl Foo for Vec<i32>`, the last impl
+    // specializes both of the others, so it is reached along two paths. Each
+    // impl ends up with the length of the longest chain of specializations
+    // leading to it, which is higher than the priority of every impl it
+    // specializes.
     fn set_priorities(
         &self,
         idx: NodeIndex,
         forest: &Graph<ImplId<I>, ()>,
         p: usize,
         map: &mut SpecializationPriorities<I>,
-    ) {
-        // Get the impl datum recorded at this node and reset its priority
+    ) -> Result<(), CoherenceError<I>> {
+        // A chain of specializations cannot have more impls than the graph has
+        // nodes. If it does, the "specializes" answers we got are cyclic, and
+        // the impls on the cycle cannot be ordered.
+        if p >= forest.node_count() {
+            return Err(CoherenceError::OverlappingImpls(self.trait_id));
+        }
+
+        // Get the impl datum recorded at this node and raise its priority.
+        // If it already has this priority or a higher one, so do its children.
         {
             let impl_id = forest
                 .node_weight(idx)
                 .expect("index should be a valid index into graph");
-            map.insert(*impl_id, SpecializationPriority(p));
+            if !map.insert(*impl_id, SpecializationPriority(p)) {
+                return Ok(());
+            }
         }
 
-        // TypeVisitable all children of this node, setting their priority to this + 1
+        // TypeVisitable all children of this node, setting their priority to at least this + 1
         for child_idx in forest.neighbors(idx) {
-            self.set_priorities(child_idx, forest, p + 1, map);
+            self.set_priorities(child_idx, forest, p + 1, map)?;
         }
+
+        Ok(())
     }
 }
